@@ -15,4 +15,10 @@ Definition ltb (a b : t) : bool :=
 Definition gtb (a b : t) : bool := ltb b a.
 Definition leb (a b : t) : bool := negb (ltb b a).
 Definition geb (a b : t) : bool := negb (ltb a b).
+Definition eqb (a b : t) : bool :=
+  match a, b with
+  | Fin x, Fin y => Qeq_bool x y | PInf, PInf => true | NInf, NInf => true | _, _ => false
+  end.
+(** finite part (0 for the infinities) *)
+Definition val (a : t) : Q := match a with Fin q => q | _ => 0 end.
 End XQ.
